@@ -37,6 +37,10 @@ def instances(tier, seed):
     add("self:S1:chiral4->chiral4:differently-numbered-type-tables", struct='S1', repl='chiral4->chiral4', axes=[2], other=(0.3, 0.7, 0), mode='self', st_terms=True,
         charges=True, search_type_offset=True, pat_charges=True, cost=30)
     add("self:S1:chiral4->chiral4:replace_all", struct='S1', repl='chiral4->chiral4', axes=[2], other=(0.35, 0.9, 0), mode='self-sites', replace_all=True, cost=20)
+    # replace_all with SEVERAL matches (every matched atom is removed and re-inserted, match after match)
+    add("self:S4:collinear3->collinear3:replace_all:three-matches", struct='S4', repl='collinear3->collinear3', axes=[1], other=(0.35, 0, 0.6), mode='self-sites', replace_all=True, cost=30)
+    add("self:S2:chiral4->chiral4:replace_all:two-matches", struct='S2', repl='chiral4->chiral4', axes=[0], other=(0, 0.9, 0.6), mode='self-sites', replace_all=True, cost=30)
+    add("aba:S6:single->F:singleF->H:replace_all", struct='S6', repl='single->F', repl2='singleF->H', axes=[1], other=(0.8, 0, 0.3), mode='aba', replace_all=True, cost=30)
     aba = [('S6', 'single->F', 'singleF->H', 1), ('S1', 'chiral4->CHSP', 'chiralCHSP->chiral4', 2), ('S6', 'single->F', 'singleF->H', 0),
            ('S2', 'chiral4->CHSP', 'chiralCHSP->chiral4', 1)]
     if tier == 'thorough':
@@ -144,7 +148,7 @@ def body(ctx, p):
         again = ctx.ms.mofun.find_pattern_in_structure(res, pat_a, atol=A)
         ctx.require('after replacing all occurrences a second search for the original pattern finds none', len(again) == 0,
                     detail=dict(found=len(again)))
-        res2, count2 = replace_again(ctx, res, p['repl2'])
+        res2, count2 = replace_again(ctx, res, p['repl2'], replace_all=bool(p.get('replace_all')))
         ctx.observe('count2', int(count2))
         ctx.require('B -> A replaces the same number of sites', int(count2) == len(R['occ']), detail=dict(count2=int(count2)))
         ok, why = same_sites(ctx, R['els'], R['snap_pos'], list(res2.elements), res2.positions, R['cell'])
